@@ -109,46 +109,49 @@ CHECKS = {
              "via extraction + implementation-only oracle load_kb_from_file = parse_rule each"),
 
  "C01": dict(
-   text="PROVED for cut-free programs, PARTIAL beyond: for every knowledge base whose clause bodies are calls, conjunctions, "
-        "disjunctions and built-ins other than `!` (no not/time), every query, world and fuel, draining the query's node yields "
-        "exactly the answers of the reference depth-first search (Spec/SpecLazy.v, continuation-passing, no nodes/flags/resumption): "
-        "same order, same multiplicity, syntactically equal substitution sets, same variable-id counter and output "
-        "(C01_refines = Proofs/RefineDen.refines_lazy, by a refinement mapping `den` from node states to the remaining reference "
-        "search, den_fresh + den_step). For programs with cut / not the reference is the trace semantics Spec/SpecSolve.v and the "
-        "statement (refines_reference, Spec/Refine.v) is NOT yet proved; proved there: cut commitment (C02), not (C03), "
-        "exhaustion (C05), answer format. What decides the property on every run for all programs: both reference searches are "
-        "extracted and run as oracles against the implementation on every generated history (SpecLazy: exact substitution sets; "
-        "SpecSolve: answers up to renaming of unbound variables), and the executable solver model (the object of the theorems) is "
-        "compared with the implementation on full substitution sets, variable-id counter and output.", ref="7/C01",
-   technique="Coq refinement proof (solver model refines reference depth-first search, cut-free programs) + extracted Coq reference semantics as oracles vs implementation + model-vs-implementation correspondence"),
+   text="PROVED for every program: for every knowledge base (cut, not, time, built-ins, any nesting), query, world and fuel, if the "
+        "reference depth-first search (Spec/SpecCut.v: success continuations, no nodes/flags/resumption; cut/not/time as "
+        "documented) finishes with answers R and asking the query's node until it reports no answer finishes with R', then R' = R: "
+        "same order, same multiplicity, syntactically equal substitution sets, same variable-id counter, stop flag and output "
+        "(C01_refines = Proofs/RefineCut.refines_cut, by the refinement mapping `cden` from node states to the remaining "
+        "reference search: cden_fresh + cden_step; the only hypothesis is that the reference search finishes - it refuses cut "
+        "directly inside not/time). Also proved: the same against the cut-free reference Spec/SpecLazy.v, the `$Var = value` "
+        "format of solve/solve_all, exhaustion (C05). Tie to the code: the reference searches are extracted and run as oracles "
+        "against the implementation on every generated history (SpecCut/SpecLazy: exact substitution sets; the independently "
+        "written eager trace semantics SpecSolve: answers up to renaming of unbound variables), and the executable solver "
+        "model - the object of the theorems - is compared with the implementation on full substitution sets, variable-id "
+        "counter and output.", ref="7/C01",
+   technique="Coq refinement proof (solver model refines the reference depth-first search, all programs) + extracted Coq reference semantics as oracles vs implementation + model-vs-implementation correspondence"),
  "C02": dict(
-   text="Machine-checked on the model of the solver, for all programs, goals and worlds: a node that reports a cut is "
-        "committed (no_backtracking set) - this covers the cut, every enclosing conjunction/disjunction node and the call that "
-        "chose the clause; a committed node yields nothing beyond the answer being derived, whatever is asked afterwards (so "
-        "no later clause, no re-try of the goals left of the cut, even when the goals after the cut fail); a call never "
-        "reports a cut to its caller (callers and siblings unaffected). That the answers before the cut are exactly the "
-        "reference's is part of refines_reference (stated, not yet proved) and is decided on every run by the extracted "
-        "reference search (terminal rules EndCut/AnsCut) used as oracle against the implementation, plus model-vs-"
-        "implementation correspondence with cut at every position of small bodies.", ref="7/C02",
-   technique="Coq proof of the commit invariants (Properties/C02.v) + extracted reference semantics as oracle + model-vs-implementation correspondence"),
+   text="PROVED: (1) the engine yields exactly the answers of the reference search Spec/SpecCut.v for every program with cut "
+        "(C02_refines): in that reference `!` continues and returns the signal Cut, which abandons every alternative up to the "
+        "clause body (goals left of the cut are not retried), ends the clause iteration of the call that chose the clause and is "
+        "absorbed there (caller and siblings unaffected); an answer leaving a conjunction in which a cut ran is its last "
+        "(C02_reference_cut_signals, C02_reference_call_absorbs). (2) Directly on the machine, for all programs, goals and worlds: "
+        "a node that reports a cut is committed (no_backtracking set) - the cut, every enclosing conjunction/disjunction node and "
+        "the call that chose the clause; a committed node yields nothing beyond the answer being derived, whatever is asked "
+        "afterwards; a call never reports a cut to its caller. Tie to the code: extracted reference searches as oracles against "
+        "the implementation (exact substitution sets) plus model-vs-implementation correspondence with cut at every position of "
+        "small bodies.", ref="7/C02",
+   technique="Coq refinement proof (model refines reference search with cut) + Coq proof of the commit invariants (Properties/C02.v) + extracted reference semantics as oracle + model-vs-implementation correspondence"),
  "C03": dict(
-   text="Machine-checked for every goal G: a fresh not(G) node asks G's node once, answers with exactly the substitution it was "
-        "created with (no binding of G visible) iff that request finds no answer, fails otherwise, and is spent afterwards "
-        "(C05); the reference search's not has the single answer s iff G has none. That G's node finds an answer exactly when "
-        "the reference search of G has one is part of refines_reference (stated, not yet proved); decided on every run by the "
-        "extracted reference search as oracle against the implementation (19 goals G x 9 positions, random programs) and by "
-        "model-vs-implementation correspondence.", ref="7/C03",
-   technique="Coq proof about the not node and the reference's not (Properties/C03.v) + extracted reference semantics as oracle + model-vs-implementation correspondence"),
+   text="PROVED: (1) the engine yields exactly the answers of the reference search Spec/SpecCut.v for every program with not(..) "
+        "(C03_refines); there not(G) asks G for its first answer only and continues - once, with the substitution it was entered "
+        "with, so no binding of G is visible - iff there was none (C03_reference_not_cps). (2) Directly on the machine, for every "
+        "goal G: a fresh not(G) node asks G's node once, answers with exactly the substitution it was created with iff that "
+        "request finds no answer, fails otherwise, and is spent afterwards (C05). Tie to the code: extracted reference searches as "
+        "oracles against the implementation (19 goals G x 9 positions, not(not(G)), random programs) and model-vs-implementation "
+        "correspondence.", ref="7/C03",
+   technique="Coq refinement proof (model refines reference search with not) + Coq proof about the not node (Properties/C03.v) + extracted reference semantics as oracle + model-vs-implementation correspondence"),
  "C04": dict(
-   text="Machine-checked: (1) for cut-free programs (calls, conjunctions, disjunctions, built-ins incl. print/print_list/nl) the "
-        "complete output of draining a query equals the output of the reference depth-first search, which writes exactly when it "
-        "executes a print goal - order and multiplicity for every program, query and fuel (C04_output_of_cutfree_search, corollary "
-        "of the refinement theorem); (2) print's formatting for all format strings and argument lists; (3) requests on an "
-        "exhausted node write nothing. For programs with cut / not the order/multiplicity statement (refines_reference) is stated, "
-        "not yet proved; it is decided on every run by comparing, per request, the text the implementation writes with what the "
-        "extracted reference searches write between the corresponding answers, and by model-vs-implementation correspondence on "
-        "the output of every operation.", ref="7/C04",
-   technique="Coq refinement proof (output of cut-free search) and proof of print formatting (Properties/C04.v) + extracted reference semantics as per-request output oracle + model-vs-implementation correspondence"),
+   text="Machine-checked: (1) for EVERY program the complete output of draining a query equals the output of the reference "
+        "depth-first search (Spec/SpecCut.v), which writes exactly when it executes a print goal - order and multiplicity "
+        "(C04_output_of_search, corollary of the refinement theorem; after every single answer the world equals the reference's "
+        "at that point, C01_step_all); (2) print's formatting for all format strings and argument lists; (3) requests on an "
+        "exhausted node write nothing. Tie to the code: per request, the text the implementation writes is compared with what "
+        "the extracted reference searches write between the corresponding answers, and model-vs-implementation correspondence "
+        "on the output of every operation.", ref="7/C04",
+   technique="Coq refinement proof (output of the search, all programs) and proof of print formatting (Properties/C04.v) + extracted reference semantics as per-request output oracle + model-vs-implementation correspondence"),
  "C05": dict(
    text="Machine-checked for ALL node kinds (calls, conjunctions, disjunctions, not, time, built-ins, with or without cut flags), "
         "all programs, worlds and fuel: a request that finds no answer leaves the node in a `dead` state; a dead node answers "
